@@ -277,7 +277,7 @@ fn flow_oracle(cfg: &FlowCfg, recs: &[(bool, bool, i64, f64, f64)]) -> Option<(S
 pub fn main(tier: &str, seed: u64, outdir: &str) {
     let mut cases = Cases::new();
     let mut rep = Report::new("C06");
-    let n = if tier == "thorough" { 700 } else { 160 };
+    let n = if tier == "thorough" { 6000 } else { 160 };
     for case in 0..n {
         let mut r = Sm::new(seed, "C06", case);
         let cfg = gen_cfg(&mut r, case, tier);
@@ -313,7 +313,7 @@ pub fn main(tier: &str, seed: u64, outdir: &str) {
         if case < 2 { rep.sample(json!({"cfg": cfg.to_json(), "init_counters": c, "first_draws": run.draws.iter().take(3).map(|d| json!({"div": d.diverging, "idx": d.idx, "counters": d.counters, "tuning": d.progress_tuning})).collect::<Vec<_>>() })); }
     }
     // flow strategy (ExternalTransformAdaptation): NUTS and MCLMC chains
-    let nf = if tier == "thorough" { 160 } else { 40 };
+    let nf = if tier == "thorough" { 1500 } else { 40 };
     for case in 0..nf {
         let mut r = Sm::new(seed, "C06-flow", case);
         let num_tune = if case < 12 { case } else if case % 7 == 0 { 150 + r.below(250) } else { r.below(130) };
